@@ -33,11 +33,15 @@ for d, fired in res:
         m['fired'] = {k: v[:2] for k, v in fired.items()}
     json.dump(m, open(mp, 'w'), indent=1)
     own = m.get('property')
+    if fired is None:
+        rows.append((os.path.basename(d), own, m.get('summary', '')[:110].replace('|', '/'), '(superseded: the patched function was rewritten by a later `fix:` commit, the patch no longer applies)', 'n/a'))
+        continue
     rows.append((os.path.basename(d), own, m.get('summary', '')[:110].replace('|', '/'), ', '.join(m['caught_by']) or '**missed**', 'yes' if own in m['caught_by'] else 'no'))
 with open(V + '/seeded/MATRIX.md', 'w') as f:
     f.write('| seeded change | breaks | what | checks that fire | own property fires |\n|---|---|---|---|---|\n')
     for r in rows:
         f.write('| ' + ' | '.join(r) + ' |\n')
-print(len(rows), 'seeds;', sum(1 for r in rows if r[3] != '**missed**'), 'caught;', sum(1 for r in rows if r[4] == 'yes'), 'caught by own property')
-for r in rows:
+app = [r for r in rows if r[4] != 'n/a']
+print(len(rows), 'seeds;', len(app), 'applicable;', sum(1 for r in app if r[3] != '**missed**'), 'caught;', sum(1 for r in app if r[4] == 'yes'), 'caught by own property')
+for r in app:
     if r[4] != 'yes': print('NOT-OWN', r[0], r[3])
